@@ -251,7 +251,7 @@ def build_screen_case(rng, w):
     case = {'w': w, 'segments': [{'start': 0, 'length': nwords, 'data': words}], 'version': rng.choice([0, 1, 2, 3]),
             'lzma_preset': 0, 'input_bits': [], 'script': {}, 'fault': None, 'probe_words': [],
             'kind': 'screen', 'screen': {'size': [sw, sh], 'bpp': bpp, 'psize': psize, 'malformed': malformed,
-                                        'device': rng.choice(['screen', 'screen', 'pc'])},
+                                        'device': rng.choice(['screen', 'screen', 'pc']), 'png': rng.random() < 0.2},
             'tags': ['screen']}
     return case
 
@@ -270,7 +270,36 @@ class _FakeTime:
         return self.time_ns() / 1e9
 
 
-def make_real_screen_device(kind):
+def decode_png_rgb(data):
+    """decode the minimal 8-bit RGB PNGs the screen device writes -> (width, height, [(r,g,b), ...])"""
+    import struct
+    import zlib
+    assert data[:8] == b'\x89PNG\r\n\x1a\n'
+    pos = 8
+    width = height = None
+    idat = b''
+    while pos < len(data):
+        n, typ = struct.unpack('>I4s', data[pos:pos + 8])
+        body = data[pos + 8:pos + 8 + n]
+        crc = struct.unpack('>I', data[pos + 8 + n:pos + 12 + n])[0]
+        assert crc == (zlib.crc32(typ + body) & 0xFFFFFFFF), 'bad chunk crc'
+        if typ == b'IHDR':
+            width, height, depth, ctype = struct.unpack('>IIBB', body[:10])
+            assert (depth, ctype) == (8, 2)
+        elif typ == b'IDAT':
+            idat += body
+        pos += 12 + n
+    raw = zlib.decompress(idat)
+    px = []
+    stride = 1 + 3 * width
+    for y in range(height):
+        row = raw[y * stride:(y + 1) * stride]
+        assert row[0] == 0
+        px += [tuple(row[1 + 3 * x:4 + 3 * x]) for x in range(width)]
+    return width, height, px
+
+
+def make_real_screen_device(kind, frames_dir=None):
     """the REAL InMemoryScreen (optionally inside the real PcIO with a real KeyboardIO over a scripted source),
     with the present hook recording frames and the clock stubbed"""
     from flipjump.interpreter.io_devices import ScreenIO
@@ -279,7 +308,7 @@ def make_real_screen_device(kind):
 
     class RecordingScreen(InMemoryScreen):
         def __init__(self):
-            super().__init__()
+            super().__init__(frames_dir=frames_dir)
             self.frames = []
             self.bits = []
 
